@@ -12,12 +12,29 @@ wraps the same call in a new process and is used to confirm every violation
 and by the determinism self-test (see DESIGN.md section 3.1 for why fork is not
 used for every run in this sandbox).
 """
+import builtins
 import importlib.abc
 import importlib.machinery
 import os
 import sys
 
+from . import simsync
 from .common import HarnessError
+
+_real_import = builtins.__import__
+
+
+def _sim_import(name, globals=None, locals=None, fromlist=(), level=0):
+    """__import__ as seen by the code under test: `threading` / `_thread`
+    resolve to cooperative stand-ins (sim/simsync.py); everything else is the
+    real import."""
+    if level == 0 and name in simsync.SHIMS:
+        return simsync.SHIMS[name]
+    return _real_import(name, globals, locals, fromlist, level)
+
+
+_SIM_BUILTINS = dict(builtins.__dict__)
+_SIM_BUILTINS["__import__"] = _sim_import
 
 _FINDER = None
 
@@ -62,6 +79,7 @@ class _Finder(importlib.abc.MetaPathFinder, importlib.abc.Loader):
                 src = f.read()
             code = self.codes[fn] = compile(src, fn, "exec", dont_inherit=True)
         module.__file__ = fn
+        module.__dict__["__builtins__"] = _SIM_BUILTINS
         exec(code, module.__dict__)
 
 
